@@ -13,7 +13,7 @@ Definition enc_res (r : res) : sexp :=
   end.
 Definition enc_dep (d : dep) : sexp :=
   L [A (d_text d); of_bool (d_filelike d); enc_res (d_code d); enc_res (d_type d); of_bool (d_dyn d);
-     of_bool (d_deno_types d)].
+     of_bool (d_deno_types d); A (d_attr d)].
 Definition enc_deps (ds : list dep) : sexp := L (map enc_dep ds).
 Definition enc_mkind (k : mkind) : N :=
   match k with MkJs => 0 | MkJson => 1 | MkWasm => 2 | MkNpm => 3 | MkNode => 4 | MkExternal => 5 end.
